@@ -13,6 +13,18 @@ CLAIMED = {
     "C02": ("fault_enumeration", "property-based fault injection on witnesses: O-sat satisfaction oracle (recorded gate rows + copy classes) x corruption families F1-F5 x adversarial prover knobs driving the real prover; oracle = nothing may verify",
             "For each generated circuit an honest witness is corrupted (copy-class overwrite, single cell detached from its class, copy class split before generation so that only the permutation is violated, public-input link, asserted variable) and handed to the real prover through the public API, also with an all-zero or scaled Z, a perturbed quotient, lenient truncation and a grinding override (cfg-gated knobs). Corruptions the independent satisfaction oracle calls violating must never yield an accepted plain or compressed proof. Thorough tier enumerates every cell of small circuits.",
             "The adversary catalogue is finite (local corruptions, listed strategies). The oracle trusts each gate's eval_unfiltered (C07) and the builder's copy classes; lookups are judged by C08.", "§C02"),
+    "C04": ("exploration", "metamorphic property testing of the Fiat-Shamir transcript: edit one component, recompute challenges with the public API, compare challenge groups in protocol order",
+            "For each generated accepted PLONK proof every transcript component class (digest, public inputs, each FRI/degree parameter, every cap entry, opening, commit-phase cap entry, final-polynomial coefficient, grinding witness) is edited; challenge groups drawn before the component must be bit-identical and every full-field challenge drawn after it must change. Thorough tier enumerates every transcript element of each proof.",
+            "The component -> first-dependent-group table comes from the protocol description. STARK transcripts are added with the STARK generator (see notes).", "§C04"),
+    "C09": ("fault_enumeration", "property-based testing with a run-time STARK family (GenStark) and simulated satisfying traces; single-cell / public-input corruptions judged by an independent row-by-row evaluator; proof-element edits",
+            "Generated STARK definitions (1-16 columns, declared degree 0-9, 0-4 public inputs, state/derived/boolean/free columns) with satisfying traces prove and verify under generated StarkConfigs; each single-cell corruption (first, last, second-to-last, interior row) or public-input change is classified by the harness evaluator: violating ones must never verify (real prover with lenient truncation), non-violating ones must still verify; proof elements are edited and must be rejected.",
+            "Edit rejections asserted only for non-constant traces with rate_bits*queries+pow >= 40. Run on scalar and AVX-512 builds.", "§C09"),
+    "C13": ("exploration", "model-based property testing: textbook Poseidon / overwrite-mode sponge / duplex challenger / own Keccak-f[1600] references, layer-wise and stateful (op sequences, re-chunking) comparison; scalar + debug-assert + AVX-512 builds",
+            "Over a million generated 12-element states per run (non-canonical and boundary limbs, crafted MDS-wrap states) through every optimised Poseidon routine and layer versus a textbook reference with embedded published vectors; sponge functions for all boundary message lengths; generated absorb/squeeze sequences against a duplex model and re-chunking metamorphic checks; Keccak hashing and the rejection-sampling permutation against an own Keccak.",
+            "x86_64 Poseidon SIMD code is disabled in this tree, so SIMD variants exercise the scalar path under different codegen.", "§C13"),
+    "C17": ("exploration", "property-based round-trip testing of byte encodings with cross-proving between original and restored circuits",
+            "Generated circuits over the default serializer registries (20 generator kinds, 15 gate kinds observed, incl. lookups and blinding): proofs, compressed proofs, CircuitData, Prover/Verifier/Common/VerifierOnly data round-trip, re-encode byte-identically, keep their digest, and original/restored circuits accept each other's fresh proofs with the reference public inputs.",
+            "Poseidon config only (default generator serializer needs an algebraic hasher). Recursion-only generators are added with the recursion checks.", "§C17"),
     "C08": ("fault_enumeration", "property-based testing of lookup circuits: generated tables and lookup multisets around the slot boundaries (positive), post-lookup witness overrides of pairs / table cells / multiplicities / padding with the real prover (negative)",
             "Generated circuits with 1-3 tables and lookup counts around the slot count prove, verify and output the table values; then one looked-up output, table cell, multiplicity or padding slot is overridden after the prover filled the lookup wires and the real prover is run (honest path, zero/scaled Z, perturbed quotient): no plain or compressed proof may verify; a non-member input must not yield an accepted proof.",
             "Tables up to a few rows' worth of 16-bit pairs; distinct table inputs and used tables as the API requires.", "§C08"),
